@@ -135,7 +135,7 @@ impl<'w> Ctx<'w> {
                     }
                     if s == "None" {
                         let iv = self.new_ivar();
-                        return Ok(e("none", Ty::Opt(Box::new(iv))));
+                        return Ok(e("Option.none", Ty::Opt(Box::new(iv))));
                     }
                 }
                 // Enum::Variant, u32::MAX, Ordering::Equal, Bound::Unbounded
@@ -399,7 +399,7 @@ impl<'w> Ctx<'w> {
         match name.as_str() {
             "Some" => {
                 let a = self.expr(&c.args[0])?;
-                Ok(E { s: format!("(some {})", a.s), ty: Ty::Opt(Box::new(a.ty)), eff: a.eff })
+                Ok(E { s: format!("(Option.some {})", a.s), ty: Ty::Opt(Box::new(a.ty)), eff: a.eff })
             }
             "Ok" => {
                 let a = self.expr(&c.args[0])?;
